@@ -50,6 +50,11 @@ def run(ctx):
         target_L = ratio * dl
         kind = rng.choice(['circ', 'circ', 'arc_bend', 'arc_bend', 'sin_bridge', 'sin_bend', 'sin_comp', 'sin_dispx', 'spline', 'spline_dispx',
                            'spline_bridge', 'linear_warp'])
+        if i % 40 == 17:
+            # a very long or very slow curve: tens of thousands of steps (no cap on the point count may set in)
+            ratio = rng.uniform(7.0e4, 1.6e5)
+            target_L = ratio * dl
+            kind = rng.choice(['sin_dispx', 'spline_dispx'])
         r = rng.choice([15.0, 30.0, 5.0, 50.0, 0.5])
         with core.quiet():
             hist = rng.random() < 0.25
@@ -165,7 +170,7 @@ def run(ctx):
         L = segs[0]
         ctx.seen({'stream': 'sampling', **case}, L > dl)
         ratio = L / dl
-        ctx.count('sampling.ratio', 'fallback(<=1)' if ratio <= 1 else ('1..2' if ratio <= 2 else ('2..10' if ratio <= 10 else '>10')))
+        ctx.count('sampling.ratio', 'fallback(<=1)' if ratio <= 1 else ('1..2' if ratio <= 2 else ('2..10' if ratio <= 10 else ('>10' if ratio <= 6.6e4 else '>65534'))))
         m = ms[0]
         near = gcommon_fr(m['dist_int']) < fractions.Fraction(1, 10 ** 9) * max(1, gcommon_fr(m['quo'])) if 'dist_int' in m else False
         if near or abs(ratio - 1) < 1e-9:
